@@ -27,6 +27,7 @@ RULE = ("matrix: node kind (11 literal kinds, typed identifier, unary minus, to-
         "round-trip, Django, SQLAlchemy ORM, SQLAlchemy Core); ORM statements are executed. "
         "distinct = distinct (filter, backend); non-trivial = every case (one matrix cell)")
 RULE += (" " + 'Also: unknown fields named like attributes of the resolver objects; a table column that is not an entity attribute; unary minus over float / duration / sums / calls / itself.')
+RULE += (" " + 'Lambda kinds over a relation declared with related_name and a different related_query_name.')
 ASSUMPTIONS = ["well-typed w.r.t. the harness models T (scalar) and Post (relational)",
                "geo.* on Django excluded: GeoDjango cannot load here (no GDAL)",
                "database errors for SQL functions SQLite lacks (regexp) are environment "
